@@ -104,6 +104,9 @@ IntervalAcc(a, m) ==
 IntervalsKey(evs, k, dur) ==
     LET a == FoldLeft(IntervalAcc, [cnt |-> 0, since |-> -1, ivs |-> {}], OfKey(evs, k))
     IN IF a.cnt > 0 THEN a.ivs \cup {<<a.since, dur>>} ELSE a.ivs
+(* only the closed intervals: a note-on that is never closed (and everything nested in it) sounds nowhere, which is how
+   the library reads an ill-formed track (normalise drops what is never closed) *)
+ClosedIntervalsKey(evs, k) == FoldLeft(IntervalAcc, [cnt |-> 0, since |-> -1, ivs |-> {}], OfKey(evs, k)).ivs
 ShiftSound(S, by) == {<<x[1], x[2], x[3] + by>> : x \in S}
 
 (* nesting never negative and zero at the end *)
